@@ -4,6 +4,7 @@ import (
 	"fmt"
 	"go/token"
 	"go/types"
+	"sort"
 
 	"golang.org/x/tools/go/ssa"
 )
@@ -552,19 +553,125 @@ func triviaSkipper(c *Ctx) *ssa.Function {
 	if buf == nil {
 		return nil
 	}
+	appends := map[*ssa.Function]bool{}
 	var sk *ssa.Function
 	for _, f := range c.libFunctions("lexer") {
 		allInstrs(f, func(_ *ssa.BasicBlock, _ int, in ssa.Instruction) {
 			if st, ok := in.(*ssa.Store); ok {
 				if _, ok := isFieldAddr(st.Addr, buf); ok {
 					if _, isApp := isBuiltinCall(st.Val, "append"); isApp {
+						appends[f] = true
 						sk = f
 					}
 				}
 			}
 		})
 	}
-	return sk
+	if len(appends) <= 1 {
+		return sk
+	}
+	// several functions append (the skipper was split into helpers): the skipper is the one the token entry point
+	// calls, from which the others are reached by static calls
+	entry := c.fn("(*lexer.Lexer).NextToken")
+	if entry == nil {
+		return nil
+	}
+	var reaches func(f *ssa.Function, seen map[*ssa.Function]bool) bool
+	reaches = func(f *ssa.Function, seen map[*ssa.Function]bool) bool {
+		if f == nil || seen[f] || f.Pkg == nil || f.Pkg != entry.Pkg {
+			return false
+		}
+		seen[f] = true
+		if appends[f] {
+			return true
+		}
+		found := false
+		allInstrs(f, func(_ *ssa.BasicBlock, _ int, in ssa.Instruction) {
+			if ci, ok := in.(ssa.CallInstruction); ok && !found {
+				found = reaches(staticCallee(ci), seen)
+			}
+		})
+		return found
+	}
+	var cands []*ssa.Function
+	allInstrs(entry, func(_ *ssa.BasicBlock, _ int, in ssa.Instruction) {
+		if ci, ok := in.(ssa.CallInstruction); ok {
+			if g := staticCallee(ci); g != nil && reaches(g, map[*ssa.Function]bool{}) {
+				cands = append(cands, g)
+			}
+		}
+	})
+	if len(cands) != 1 {
+		return nil
+	}
+	return cands[0]
+}
+
+// skipperFns: the trivia skipper and its private helpers — unexported methods of the lexer whose every call site is
+// in the skipper or in another such helper (so whatever they do happens during trivia skipping and nowhere else).
+func (lf *lexFacts) skipperFns() []*ssa.Function {
+	if lf.skipper == nil {
+		return nil
+	}
+	if lf.skFns != nil {
+		return lf.skFns
+	}
+	c := lf.c
+	in := map[*ssa.Function]bool{lf.skipper: true}
+	callers := map[*ssa.Function][]*ssa.Function{}
+	for _, g := range c.libFunctions("lexer") {
+		allInstrs(g, func(_ *ssa.BasicBlock, _ int, ins ssa.Instruction) {
+			if ci, ok := ins.(ssa.CallInstruction); ok {
+				if cal := staticCallee(ci); cal != nil && cal.Pkg == g.Pkg {
+					callers[cal] = append(callers[cal], g)
+				}
+			}
+		})
+	}
+	for changed := true; changed; {
+		changed = false
+		for f, cs := range callers {
+			if in[f] || f == lf.advance || f == lf.peekFn || f.Signature.Recv() == nil || len(cs) == 0 {
+				continue
+			}
+			if _, isPred := lf.preds[f]; isPred {
+				continue
+			}
+			all := true
+			for _, g := range cs {
+				if !in[g] {
+					all = false
+				}
+			}
+			if !all {
+				continue
+			}
+			if _, closed := c.argsAtCallers(f, 0); !closed {
+				continue
+			}
+			in[f] = true
+			changed = true
+		}
+	}
+	out := []*ssa.Function{lf.skipper}
+	var rest []*ssa.Function
+	for f := range in {
+		if f != lf.skipper {
+			rest = append(rest, f)
+		}
+	}
+	sort.Slice(rest, func(i, j int) bool { return fnName(rest[i]) < fnName(rest[j]) })
+	lf.skFns = append(out, rest...)
+	return lf.skFns
+}
+
+func (lf *lexFacts) isSkipperFn(f *ssa.Function) bool {
+	for _, g := range lf.skipperFns() {
+		if g == f {
+			return true
+		}
+	}
+	return false
 }
 
 func checkTriviaBeforeChain(c *Ctx, lexFld *types.Var) {
